@@ -13,7 +13,7 @@ NodeSt(n) ==
     LET j == G.nodes[n]
     IN  [ pcA |-> j.pcA, ak |-> j.ak, pcH |-> j.pcH, hk |-> j.hk, pcC |-> j.pcC, ck |-> j.ck,
           buf |-> j.buf, inEv |-> j.inEv, connEv |-> j.connEv, connected |-> j.connected,
-          eioUp |-> j.eioUp, nsUp |-> j.nsUp, results |-> j.results ]
+          eioUp |-> j.eioUp, nsUp |-> j.nsUp, results |-> j.results, woken |-> j.woken ]
 
 Act(e) == [th |-> e.a.th, c |-> e.a.c]
 
